@@ -350,7 +350,7 @@ pub fn run(tier: Tier, seed: u64) -> i32 {
         check_inner(sub, &g, &input, l)
     });
     ctx.finish(&check_case, RULE, ASSUMPTIONS, &|l| {
-        for k in ["values_created_then_parse_failed", "values_created_in_grammar_with_fixed_size_collection", "with_output", "tracked_values_created"] {
+        for k in ["zero_sized_value_runs", "values_created_then_parse_failed", "values_created_in_grammar_with_fixed_size_collection", "with_output", "tracked_values_created"] {
             if l.counters.get(k).copied().unwrap_or(0) == 0 {
                 return Err(format!("class '{}' is empty", k));
             }
